@@ -45,6 +45,25 @@ def oracle(before, after, code, val):
         pr.append('path reads back %r; requested %r (no permitted disambiguation explains the difference)' % (after['path'], requested))
     return pr, how
 
+def respell(x):
+    """the same octets spelled differently: the first ASCII letter or digit outside an escape is percent-encoded"""
+    i = 0
+    while i < len(x):
+        if x[i] == '%': i += 3; continue
+        if x[i].isascii() and x[i].isalnum(): return x[:i] + '%%%02X' % ord(x[i]) + x[i + 1:]
+        i += 1
+    return None
+def respell_auth(x):
+    at = x.rfind('@'); hp = x[at + 1:]
+    if not hp.startswith('['):
+        c = hp.rfind(':'); host = hp[:c] if c >= 0 else hp
+        r = respell(host) if host else None
+        if r is not None: return x[:at + 1] + r + hp[len(host):]
+    if at >= 0:
+        r = respell(x[:at])
+        if r is not None: return r + x[at:]
+    return None
+
 def main():
     R = Result('C05', 'proof')
     rnd = random.Random(R.seed)
@@ -87,6 +106,11 @@ def main():
                     vals = values(g, code, kind)
                     for v in (vals if thorough else g.r.sample(vals, min(3, len(vals)))):
                         cases.append((kind, text.encode(), code, None if v is None else v.encode()))
+                    # a new value that is == the current component but spelled differently (one character percent-encoded): it must be written
+                    cur = p[COMP[code]]
+                    if code != 'ss' and cur and g.r.random() < 0.5:
+                        alt = respell_auth(cur) if code == 'sa' else respell(cur)
+                        if alt is not None: cases.append((kind, text.encode(), code, alt.encode()))
     lines = ['set\t%s\t%s\t%s:%s' % (k, hexs(b), c, H(v)) for k, b, c, v in cases]
     impl = run_lines(harness, lines)
     mod = run_lines(model, lines)
